@@ -163,6 +163,14 @@ def normSqRows (a : Tensor K) : Array K :=
   Array.ofFn (n := a.size / nc) (fun pI =>
     (List.range nc).foldl (fun acc c => acc + a.get (pI.val * nc + c) * a.get (pI.val * nc + c)) 0)
 
+/-- `v / np.linalg.norm(v, axis=-1)` row by row, with the square root as a PARAMETER (`sqrt` is any function;
+    the theorems assume `0 < sqrt x ∧ sqrt x * sqrt x = x` for `x > 0`, which determines it on positive numbers). -/
+def normalizeRows (sqrt : K → K) (a : Tensor K) : Tensor K :=
+  let nc := a.shape.getLastD 1
+  { shape := a.shape,
+    data := Array.ofFn (n := a.size / nc * nc) (fun idx =>
+      a.get idx.val / sqrt ((normSqRows a).getD (idx.val / nc) 0)) }
+
 end Tensor
 
 namespace Obj
@@ -274,22 +282,25 @@ def surfaceNormalRaw (o : Obj K) (tol : K) (us vs : List K) (above : ASpec) (ten
     | _ => .error .other
   else .error .runtime
 
+/-- The acceleration as `Curve.binormal` uses it: a vanishing acceleration (exact-zero test in the model,
+    `np.allclose(ddx, 0)` in the code) is replaced by `e_x` when the velocity is along `e_z`, else by `e_z`. -/
+def fixedAcc (dx ddx : Tensor K) (n : ℕ) : Tensor K :=
+  { shape := ddx.shape,
+    data := Array.ofFn (n := n * 3) (fun idx =>
+      let pI := idx.val / 3
+      let c := idx.val % 3
+      let z (t : Tensor K) (cc : ℕ) : Bool := decide (t.get (pI * 3 + cc) = 0)
+      if z ddx 0 && z ddx 1 && z ddx 2 then
+        (if z dx 0 && z dx 1 then (if c = 0 then 1 else 0) else (if c = 2 then 1 else 0))
+      else ddx.get idx.val) }
+
 /-- `Curve.binormal(t, above)` before the normalisation: `np.cross(dx, ddx)` with the code's
-    replacement of a vanishing acceleration (exact-zero test in the model). -/
+    replacement of a vanishing acceleration. -/
 def curveBinormalRaw (o : Obj K) (tol : K) (ts : List K) (above : ASpec) : PyM (Tensor K) :=
   if o.dimension ≠ 3 then .error .value else do
     let dx ← o.derivativeCall tol [ts] (.int 1) above true
     let ddx ← o.derivativeCall tol [ts] (.int 2) above true
-    let ddx' : Tensor K :=
-      { shape := ddx.shape,
-        data := Array.ofFn (n := ts.length * 3) (fun idx =>
-          let pI := idx.val / 3
-          let c := idx.val % 3
-          let z (t : Tensor K) (cc : ℕ) : Bool := decide (t.get (pI * 3 + cc) = 0)
-          if z ddx 0 && z ddx 1 && z ddx 2 then
-            (if z dx 0 && z dx 1 then (if c = 0 then 1 else 0) else (if c = 2 then 1 else 0))
-          else ddx.get idx.val) }
-    pure (Tensor.crossRows dx ddx')
+    pure (Tensor.crossRows dx (fixedAcc dx ddx ts.length))
 
 /-- `Curve.normal(t, above)` = `np.cross(B, T)`; un-normalised: `cross(b, v)` with `b` the raw
     binormal and `v` the raw tangent (`b ⟂ v`, so the normalised vector is the same). -/
@@ -299,6 +310,38 @@ def curveNormalRaw (o : Obj K) (tol : K) (ts : List K) (above : ASpec) : PyM (Te
     let b ← o.curveBinormalRaw tol ts above
     match tl with
     | [v] => pure (Tensor.crossRows b v)
+    | _ => .error .other
+
+/-! ### The normalised results, square root as a parameter -/
+
+/-- `tangent(...)`: every returned field is `v / ‖v‖`. -/
+def tangentUnit (sqrt : K → K) (o : Obj K) (tol : K) (params : List (List K)) (dir : Option ℕ)
+    (above : ASpec) (tensor : Bool) : PyM (List (Tensor K)) :=
+  (o.tangent tol params dir above tensor).map (List.map (Tensor.normalizeRows sqrt))
+
+/-- `Surface.normal` for `dimension = 3`, as the code computes it: normalised tangents, cross product,
+    normalised again. -/
+def surfaceNormalUnit (sqrt : K → K) (o : Obj K) (tol : K) (us vs : List K) (above : ASpec) (tensor : Bool) :
+    PyM (Tensor K) :=
+  if !tensor ∧ us.length ≠ vs.length then .error .value else
+  if o.dimension = 3 then do
+    let ts ← o.tangentUnit sqrt tol [us, vs] none above tensor
+    match ts with
+    | [du, dv] => pure (Tensor.normalizeRows sqrt (Tensor.crossRows du dv))
+    | _ => .error .other
+  else o.surfaceNormalRaw tol us vs above tensor
+
+/-- `Curve.binormal`: `cross(dx, ddx) / ‖cross(dx, ddx)‖`. -/
+def curveBinormalUnit (sqrt : K → K) (o : Obj K) (tol : K) (ts : List K) (above : ASpec) : PyM (Tensor K) :=
+  (o.curveBinormalRaw tol ts above).map (Tensor.normalizeRows sqrt)
+
+/-- `Curve.normal`: `np.cross(B, T)` of the normalised binormal and tangent. -/
+def curveNormalUnit (sqrt : K → K) (o : Obj K) (tol : K) (ts : List K) (above : ASpec) : PyM (Tensor K) :=
+  if o.dimension ≠ 3 then .error .runtime else do
+    let tl ← o.tangentUnit sqrt tol [ts] none above true
+    let b ← o.curveBinormalUnit sqrt tol ts above
+    match tl with
+    | [t] => pure (Tensor.crossRows b t)
     | _ => .error .other
 
 end Obj
